@@ -13,6 +13,7 @@ import (
 	"errors"
 	"fmt"
 	"strings"
+	"sync/atomic"
 	"time"
 
 	"storj.io/drpc"
@@ -470,6 +471,154 @@ func failedCallThenNext(id string, seed uint64) runner.Result {
 	}
 	res := runner.Hold(id, desc, true)
 	res.Events = int64(2 * rounds)
+	return res
+}
+
+// lateCallsOnEndedRPC: a client that flushes by hand. RPC 1 has ended (the handler failed it, or finished
+// it, or the client closed it); RPC 2 is created on the connection and a small message is sent on it and
+// deliberately not flushed. Then late calls arrive on RPC 1's stream (a deferred flush, a send, a
+// half-close, a close). Whatever they return, they are calls on RPC 1: they do not send RPC 2's frames
+// for it. The server sees nothing of RPC 2 until RPC 2 is flushed, and then RPC 2 gets its own answer.
+func lateCallsOnEndedRPC(id string, seed uint64) runner.Result {
+	r := &payload.SplitMix{S: seed}
+	cfg := prog.GenConfig(r, false)
+	if cfg.Net.Cap == 0 {
+		cfg.Net.Cap = -1
+	}
+	cfg.Client.Stream.ManualFlush = true
+	cfg.Client.WriterBufferSize = 4096
+	var echoes int64
+	handler := rig.HandlerFunc(func(stream drpc.Stream, rpc string) error {
+		switch rpc {
+		case "/fail":
+			return errors.New("rpc 1 fails")
+		case "/finish":
+			return nil
+		case "/wait":
+			var m []byte
+			for stream.MsgRecv(&m, payload.Enc{}) == nil {
+			}
+			return nil
+		}
+		atomic.AddInt64(&echoes, 1)
+		census.Bump()
+		var m []byte
+		if err := stream.MsgRecv(&m, payload.Enc{}); err != nil {
+			return err
+		}
+		h, _ := payload.Parse(m)
+		out := payload.Make(h.Tag, 1, 0, 0, 10)
+		return stream.MsgSend(&out, payload.Enc{})
+	})
+	rg := rig.New(rig.Config{Net: cfg.Net, Client: cfg.Client, Server: cfg.Server}, handler)
+	defer rg.Teardown()
+	how := payload.Pick(r, []string{"/fail", "/finish", "/wait+Close", "/wait+CloseSend"})
+	late := payload.Pick(r, []string{"RawFlush", "MsgSend", "CloseSend", "Close", "RawFlush,RawFlush", "MsgSend,RawFlush", "Close,RawFlush"})
+	desc := fmt.Sprintf("%s | client flushes by hand; rpc 1 %s has ended; rpc 2 created and one message sent without a flush; then on rpc 1: %s", cfg.Desc, how, late)
+	type flusher interface{ RawFlush() error }
+	var s1, s2 drpc.Stream
+	op := rig.Go("rpc1", func() (interface{}, error) {
+		st, err := rg.Conn.NewStream(context.Background(), strings.SplitN(how, "+", 2)[0], payload.Enc{})
+		if err != nil {
+			return nil, err
+		}
+		s1 = st
+		switch how {
+		case "/wait+Close":
+			if err := st.(flusher).RawFlush(); err != nil {
+				return nil, err
+			}
+			return nil, st.Close()
+		case "/wait+CloseSend":
+			if err := st.CloseSend(); err != nil {
+				return nil, err
+			}
+		}
+		var m []byte
+		if err := st.MsgRecv(&m, payload.Enc{}); err == nil {
+			return nil, errors.New("rpc 1 got a message")
+		}
+		if how == "/finish" {
+			// the handler finished the rpc; the client's half is still open
+			if err := st.CloseSend(); err != nil {
+				return nil, err
+			}
+		}
+		<-st.Context().Done()
+		return nil, nil
+	})
+	if !op.Wait() || op.Err != nil {
+		return runner.Inconcl(id, fmt.Sprintf("rpc 1 did not end as planned (%v): %s", op.Err, desc))
+	}
+	census.Quiesce(rig.Watchdog)
+	in := payload.Make(2, 0, 0, 0, 5)
+	op2 := rig.Go("rpc2-send", func() (interface{}, error) {
+		st, err := rg.Conn.NewStream(context.Background(), "/echo", payload.Enc{})
+		if err != nil {
+			return nil, err
+		}
+		s2 = st
+		return nil, st.MsgSend(&in, payload.Enc{})
+	})
+	if !op2.Wait() || op2.Err != nil {
+		return runner.Inconcl(id, fmt.Sprintf("rpc 2 could not be created (%v): %s", op2.Err, desc))
+	}
+	census.Quiesce(rig.Watchdog)
+	if atomic.LoadInt64(&echoes) != 0 {
+		return runner.Inconcl(id, "rpc 2 reached the server before anything was flushed: "+desc)
+	}
+	var results []string
+	op3 := rig.Go("late", func() (interface{}, error) {
+		for _, c := range strings.Split(late, ",") {
+			var err error
+			switch c {
+			case "RawFlush":
+				err = s1.(flusher).RawFlush()
+			case "MsgSend":
+				m := payload.Make(1, 0, 9, 0, 5)
+				err = s1.MsgSend(&m, payload.Enc{})
+			case "CloseSend":
+				err = s1.CloseSend()
+			case "Close":
+				err = s1.Close()
+			}
+			results = append(results, c+"="+rig.ErrStr(err))
+		}
+		return nil, nil
+	})
+	if !op3.Wait() {
+		return runner.Violation(id, "isolation:late-calls-on-ended-rpc:blocked", desc+"\nthe late calls on the ended rpc 1 have not returned at quiescence")
+	}
+	census.Quiesce(rig.Watchdog)
+	var fails []string
+	if n := atomic.LoadInt64(&echoes); n != 0 {
+		fails = append(fails, fmt.Sprintf("after the late calls on rpc 1 (%s) the server is handling rpc 2, whose frames the client has not flushed: a call on one rpc sent another rpc's frames", strings.Join(results, " ")))
+	}
+	var out []byte
+	op4 := rig.Go("rpc2-finish", func() (interface{}, error) {
+		if err := s2.(flusher).RawFlush(); err != nil {
+			return nil, err
+		}
+		return nil, s2.MsgRecv(&out, payload.Enc{})
+	})
+	if !op4.Wait() {
+		return runner.Inconcl(id, "rpc 2 blocked after its flush: "+desc)
+	}
+	if len(fails) == 0 {
+		if op4.Err != nil {
+			fails = append(fails, fmt.Sprintf("rpc 2 ended with %s after the late calls on rpc 1 (%s)", rig.ErrStr(op4.Err), strings.Join(results, " ")))
+		} else if h, err := payload.Parse(out); err != nil || h.Tag != 2 {
+			fails = append(fails, fmt.Sprintf("rpc 2 got an answer that is not its own (tag %d, err %v)", h.Tag, err))
+		} else if n := atomic.LoadInt64(&echoes); n != 1 {
+			fails = append(fails, fmt.Sprintf("the server handled rpc 2 %d times", n))
+		}
+	}
+	s2.Close()
+	if len(fails) > 0 {
+		return runner.Violation(id, "isolation:late-calls-on-ended-rpc", desc+"\n"+strings.Join(fails, "\n"))
+	}
+	res := runner.Hold(id, desc+" -> "+strings.Join(results, " "), true)
+	res.Events = 4
 	return res
 }
 
@@ -1100,6 +1249,11 @@ func gen(tier string, seed uint64) []runner.Scenario {
 		i := i
 		id := fmt.Sprintf("failed-call-then-next/%d", i)
 		out = append(out, runner.Scenario{ID: id, Run: func() runner.Result { return failedCallThenNext(id, payload.Hash(seed, 0xC029, uint64(i))) }})
+	}
+	for i := 0; i < n/10; i++ {
+		i := i
+		id := fmt.Sprintf("late-calls-on-ended-rpc/%d", i)
+		out = append(out, runner.Scenario{ID: id, Run: func() runner.Result { return lateCallsOnEndedRPC(id, payload.Hash(seed, 0xC02F, uint64(i))) }})
 	}
 	for i := 0; i < n/10; i++ {
 		i := i
